@@ -24,6 +24,8 @@ def main():
                 print("   " + l[:300])
     finally:
         subprocess.run(["git", "-C", "/repo", "checkout", "--", "."], check=True)
+        # files a patch ADDED are untracked after the checkout: remove them too (source tree only)
+        subprocess.run(["git", "-C", "/repo", "clean", "-fdq", "--", "src", "tests", "benches"], check=True)
     json.dump(res, open(os.path.join(d, "seedrun_result.json"), "w"), indent=1)
     return 0
 if __name__ == "__main__":
